@@ -4,8 +4,12 @@ import json, os, sys, time, hashlib
 from .common import VERIF, seed as _seed
 
 
+CURRENT = []
+
+
 class Report:
     def __init__(self, pid, tier, level="model_checking"):
+        CURRENT.append(self)
         self.pid, self.tier, self.level = pid, tier, level
         self.cov = {"states": 0, "transitions": 0, "traces_validated_against_impl": 0, "samples": [],
                     "spec_computed_events": 0, "oracle_relation_events": 0, "parts": {}}
